@@ -205,6 +205,54 @@ func Run(r *fw.Run) {
 	r.Extra["distinct_sets_in_injectivity_table"] = len(table)
 	r.Sample(mkCase("set", []string{"a  b", "é"}, []string{"x\n", ""}))
 
+	// byte sweep over names: every byte value (and a few multi-byte fills) at the start, in the middle and
+	// at the end of a name; the name alone and next to two fixed neighbours; newline must be refused
+	{
+		l := fw.NewLocal()
+		var fills []string
+		for b := 0; b < 256; b++ {
+			fills = append(fills, string([]byte{byte(b)}))
+		}
+		fills = append(fills, "%s", "%d", "%%", "%!", "%v", "\\n", "é", "\u212a", "\ufffd", "\u2028", "\xe2\x82")
+		r.Bounds["name_byte_sweep"] = fmt.Sprintf("3 positions x (256 byte values + %d other fills) x 2 set shapes", len(fills)-256)
+		for _, f := range fills {
+			for _, nm := range []string{f + "x", "a" + f + "b", "dir/x" + f} {
+				for _, set := range [][]string{{nm}, {"b", nm, "a/z"}} {
+					ct := make([]string, len(set))
+					for i := range ct {
+						ct[i] = "content " + strconv.Itoa(i) + "\n"
+					}
+					l.States++
+					l.Execs++
+					l.Transitions++
+					msg, h := setCase(set, ct)
+					if msg != "" {
+						r.Violation("set:"+strconv.QuoteToASCII(strings.Join(set, "|")+"#"+strings.Join(ct, "|")), msg, mkCase("set", set, ct))
+						continue
+					}
+					if h == "" {
+						l.Outcomes["refused:newline"]++
+						continue
+					}
+					l.Nontrivial++
+					l.Outcomes["hashed"]++
+					mu.Lock()
+					m := map[string]string{}
+					for i := range set {
+						m[set[i]] = ct[i]
+					}
+					canon := refSummary(m)
+					if prev, ok := table[h]; ok && prev != canon {
+						r.Violation("collision:"+h, fmt.Sprintf("two different file sets hash to %s:\n%s---\n%s", h, prev, canon), mkCase("set", set, ct))
+					}
+					table[h] = canon
+					mu.Unlock()
+				}
+			}
+		}
+		r.Merge(l)
+	}
+
 	// call histories: the hash is a function of names and bytes only, not of earlier calls
 	historyPart(r)
 
